@@ -6,9 +6,10 @@
    trace.ndjson - several histories, each starting with "init":
      {"event":"init",    "tbl":{c:{"st","groups":[..],"uc"}..}}        the table read back from the chain
      {"event":"begintx", "signers":[..]}                               as decoded from the stored transaction
-     {"event":"call","c","rs","try"} | {"event":"ret"} | {"event":"upd","c","groups"} | {"event":"destroy","c"}
-     | {"event":"deploy","c","groups"} | {"event":"throw"}              steps that REALLY completed (reconstructed
-                                                                       from the markers the probe code left)
+     {"event":"call","c","rs","try"} | {"event":"ret"} | {"event":"upd","c","groups","cb"} | {"event":"destroy","c"}
+     | {"event":"deploy","c","groups","cb"} | {"event":"throw"}         steps that REALLY completed (reconstructed
+                                                                       from the markers the probe code left); cb: the
+                                                                       contract's _deploy method is running now
      {"event":"check",   "acct", "res"}     res 0 false, 1 true, 2 the execution faulted in this check
      {"event":"tab",     "uc":{c:n..}}      ContractManagement.getContract as seen INSIDE the execution at that
                                             point: the update counter, -1 no such contract
@@ -51,16 +52,18 @@ Step ==
               /\ stack' = PushCall(stack, tbl, e.c, e.rs, e.try) /\ UNCHANGED <<tbl, base, signers>>
               /\ Report(l, NameIf(Full /\ IsLive(tbl, e.c), "ModelStep"), [ev |-> e])
          [] e.event = "ret" ->
-              /\ stack' = (IF Len(stack) > 1 THEN Pop(stack) ELSE stack) /\ UNCHANGED <<tbl, base, signers>>
+              /\ stack' = (IF Len(stack) > 1 THEN PopRet(stack) ELSE stack) /\ UNCHANGED <<tbl, base, signers>>
               /\ Report(l, NameIf(Len(stack) > 1, "ModelStep"), [ev |-> e])
          [] e.event = "upd" ->
-              /\ tbl' = Updated(tbl, e.c, ToSet(e.groups)) /\ UNCHANGED <<stack, base, signers>>
+              /\ tbl' = Updated(tbl, e.c, ToSet(e.groups)) /\ UNCHANGED <<base, signers>>
+              /\ stack' = IF e.cb THEN PushDeployCb(stack, tbl', e.c) ELSE stack
               /\ Report(l, NameIf(Full /\ Len(stack) > 1 /\ Top(stack).hash = e.c /\ IsLive(tbl, e.c), "ModelStep"), [ev |-> e])
          [] e.event = "destroy" ->
               /\ tbl' = Destroyed(tbl, e.c) /\ UNCHANGED <<stack, base, signers>>
               /\ Report(l, NameIf(Full /\ Len(stack) > 1 /\ Top(stack).hash = e.c /\ IsLive(tbl, e.c), "ModelStep"), [ev |-> e])
          [] e.event = "deploy" ->
-              /\ tbl' = Deployed(tbl, e.c, ToSet(e.groups)) /\ UNCHANGED <<stack, base, signers>>
+              /\ tbl' = Deployed(tbl, e.c, ToSet(e.groups)) /\ UNCHANGED <<base, signers>>
+              /\ stack' = IF e.cb THEN PushDeployCb(stack, tbl', e.c) ELSE stack
               /\ Report(l, NameIf(Full /\ tbl[e.c].st = "absent", "ModelStep"), [ev |-> e])
          [] e.event = "throw" ->
               /\ IF Running /\ CatchIndex(stack) # 0
